@@ -424,7 +424,7 @@ def run(tier, seed):
     cfg = "MC_Determinism" if tier == "quick" else "MC_Determinism_all"
     core.scratch()
     tlc_pool = concurrent.futures.ThreadPoolExecutor(max_workers=1)
-    tlc_future = tlc_pool.submit(core.tlc, "MC_Determinism", cfg=cfg, coverage=True, timeout=2400)   # runs while phase 0 compiles
+    tlc_future = tlc_pool.submit(core.tlc, "MC_Determinism", cfg=cfg, coverage=True, timeout=2400)   # runs while the fresh outputs are compiled
     # corpus
     files = dict(GEN)
     files.update(EXTRA)
@@ -447,15 +447,15 @@ def run(tier, seed):
         out = os.path.join(d, "out.json")
         core.run_child(_CHILD, [d, "seq", json.dumps([m]), "0", out], with_snapshot=True, timeout=1500, env={"PYTHONHASHSEED": "0"})
         return m, (json.load(open(out))["sha"].get(m) if os.path.exists(out) else None)
-    with concurrent.futures.ThreadPoolExecutor(max_workers=core.NCPU) as ex:
-        fresh = dict(ex.map(alone, mods))
-    dropped = [m for m in mods if not fresh[m]]
-    mods = [m for m in mods if fresh[m]]
+    # the tests/run files (the only modules allowed to drop out) first; the other fresh outputs are awaited after the classes started
+    ex0 = concurrent.futures.ThreadPoolExecutor(max_workers=core.NCPU)
+    droppable = [m for m in mods if m.startswith("t_")]
+    fut_alone = {m: ex0.submit(alone, m) for m in droppable + [m for m in mods if not m.startswith("t_")]}
+    fresh = {m: fut_alone[m].result()[1] for m in droppable}
+    dropped = [m for m in droppable if not fresh[m]]
+    mods = [m for m in mods if m not in dropped]
     for m in dropped:
         files.pop(m)
-    missing = [m for m in FAMILIES if m.endswith(".pyx") and m in dropped]
-    if missing:
-        rep.disagree({"kind": "family-module-does-not-compile"}, "error", {"modules": missing})
 
     t_phase0 = time.time() - t0
     t = tlc_future.result()
@@ -553,6 +553,13 @@ def run(tier, seed):
         results = list(ex.map(run_class, enumerate(todo)))
         pool_results = [f.result() for f in fut_pool]
         hist = fut_hist.result()
+    for m in mods:
+        if m not in fresh:
+            fresh[m] = fut_alone[m].result()[1]
+    ex0.shutdown()
+    missing = [m for m in mods if not fresh[m]]       # generated modules and families must compile standalone
+    for m in missing:
+        rep.disagree({"kind": "module-does-not-compile-alone", "module": m}, "error", {"module": m})
 
     t_classes = time.time() - t0 - t_phase0 - t_tlc_wait
     n_cmp = 0
@@ -603,7 +610,7 @@ def run(tier, seed):
         "hazard_signatures_published": sorted("%s:%s" % s for s in all_sigs), "hazard_signatures_executed": sorted("%s:%s" % s for s in exec_sigs),
         "action_coverage": {a: list(t.coverage.get(a, (0, 0))) for a in ("Take", "ReadOne", "Memo", "Truncate", "Write", "Observe")},
         "modules": mods, "groups": groups,
-        "phase_wall_s": {"fresh_outputs_and_tlc": round(t_phase0, 1), "waiting_for_tlc": round(t_tlc_wait, 1), "classes_and_batches": round(t_classes, 1)},
+        "phase_wall_s": {"fresh_outputs_of_droppable_modules": round(t_phase0, 1), "waiting_for_tlc": round(t_tlc_wait, 1), "classes_batches_and_other_fresh_outputs": round(t_classes, 1)},
         "modules_not_compilable_standalone": dropped,
         "rule": "environment classes = final states of the model: job order x PYTHONHASHSEED {0, 1, seeded, random} x {1, 2} worker processes x "
                 "process histories (which jobs each process ran, in order); a class is executed as one real process per model process that "
